@@ -70,7 +70,10 @@ def one_trace(rng, tid, prop):
                 # the caller's own numpy arrays as arguments: they must come back untouched (C17)
                 import numpy
                 given = [rec.new(numpy.array(rows, dtype=rng.choice(["int64", "uint32", "int32"])).reshape(len(rows), len(rows[0])))]
-                given += [rec.new(numpy.array(c, dtype="int64").reshape(shape)) for c in coefs]
+                # coefficient arrays of different dtypes: the polynomial gets their common type, none is truncated
+                kinds = [rng.choice(["int64", "int64", "float64", "int8"]) for _ in coefs]
+                coefs = [[x + 0.5 for x in c] if k == "float64" and rng.random() < 0.7 else c for c, k in zip(coefs, kinds)]
+                given += [rec.new(numpy.array(c, dtype=k).reshape(shape)) for c, k in zip(coefs, kinds)]
             new = rec.do("from_attributes", given, rows=rows, coefs=[[num(x) for x in r] for r in coefs], shape=shape,
                          names=names, rc=rng.choice(["none", "true", "false"]), rn=rng.choice(["none", "true", "false"]),
                          via=rng.choice(["function", "classmethod", "clean_attributes"]), dtype="int64",
